@@ -8,14 +8,22 @@ C18_UnsafeNeverRuns), spec/SandboxTrace.tla (trace validation).
 Binding (code -> spec): generated sandboxed templates route recording callables
 (safe, @unsafe, alters_data, denied-by-policy; functions, bound methods,
 callable instances, async functions) from a source (name, dict / list item,
-attribute) through 0-2 aliasing steps (set, with, macro parameter, loop
-variable, call-block parameter) to one call site (plain, with arguments,
-*args / **kwargs, {% call %}, inside filter / test arguments, conditions, loop
+attribute, a context variable under a name the engine gives a meaning to)
+through 0-2 aliasing steps (set, with, macro parameter / default, loop
+variable, call-block parameter, namespace, the implicit macro arguments
+caller= / varargs / kwargs; the bound variables optionally named caller, loop,
+varargs, self, range ...) to one call site (plain, with arguments, *args /
+**kwargs, {% call %}, inside filter / test arguments, conditions, loop
 sources, macro defaults, caller bodies, recursive loops ...), sync and async,
-with the default and with an overridden is_safe_callable.  The environment
-subclass logs is_safe_callable's verdict, the callables log that they ran; TLC
-validates every trace: an unsafe callable that ran, or a refusal that did not
-surface as SecurityError, is rejected.
+with the default and with an overridden is_safe_callable.  Sessions: ONE
+environment serves a sequence of renders (SandboxGate.NewRender) whose
+callables are built afresh per render and dropped, are methods of one class
+bound to different receivers (some frozen: policy "denyrecv"), or are one
+long-lived object the application marks / unmarks between renders; the
+specification is told the marks of the called object as they are when the
+render starts.  The environment subclass logs is_safe_callable's verdict, the
+callables log that they ran; TLC validates every trace: an unsafe callable that
+ran, or a refusal that did not surface as SecurityError, is rejected.
 """
 from __future__ import annotations
 
@@ -279,8 +287,11 @@ def name_allowed(binder, v, nxt=None):
         return False      # the loop variable cannot be the target of its own loop: TemplateAssertionError
     if v == "self" and binder == "ctx_name":
         return False      # render(self=...) is not expressible through keyword arguments
-    if nxt == "call_param" and (v == "caller" or binder == "macro_caller_kw"):
-        return False      # `caller(caller)` inside the helper macro hands the call block to itself: endless recursion
+    if nxt == "call_param" and (v in ("caller", "varargs", "kwargs") or binder.startswith("macro_") and
+                                binder != "macro_param" and binder != "macro_default"):
+        # the next step reads the variable inside a helper macro, where these three names are the helper's own
+        # implicit arguments (`caller(caller)` hands the call block to itself: endless recursion)
+        return False
     return True
 
 
@@ -334,6 +345,8 @@ def pick_names(rnd, aliases):
     for i, a in enumerate(aliases):
         nxt = aliases[i + 1] if i + 1 < len(aliases) else None
         ok = [v for v in ENGINE_NAMES if v not in used and name_allowed(a, v, nxt)] if a in NAMEABLE else []
+        if "loop_var" in aliases[:i] and a in ("set", "tuple_unpack", "dict_literal", "namespace"):
+            ok = [v for v in ok if v != "loop"]     # {% set loop = ... %} inside a for loop: TemplateAssertionError
         v = rnd.choice(ok) if ok else ""
         used.add(v)
         out.append(v)
@@ -712,7 +725,7 @@ def design_model(ck):
     ck.add_tlc(r, "SandboxGate: CallGate before Run, across renders of one environment; default, deny-by-name, "
                   "deny-by-identity and deny-by-receiver policy")
     if quick:
-        su.require_cov(ck, r, ["MFetch", "MCallGate", "MRun", "NewRender"])
+        su.require_cov(ck, r, ["MFetch", "MCallGate", "MRun", "MNewRender"])
 
 
 def run(ck):
@@ -752,14 +765,18 @@ def run(ck):
     ck.extra["events"] = stats
     if not (stats["callgate"] and stats["ran"] and stats["refused"]):
         raise core.MachineryError(f"vacuous traces: {stats}")
-    if any(not stats["refused_after_grant"].get(th) for th in ("fresh", "receiver", "remark", "mixed")):
-        raise core.MachineryError(f"vacuous sessions: no refusal after a grant: {stats['refused_after_grant']}")
-    if any(not stats["named_variables"].get(v) for v in ENGINE_NAMES):
-        raise core.MachineryError(f"vacuous name sweep: {stats['named_variables']}")
     bad = {o: n for o, n in stats["outcomes"].items() if o in ("TemplateSyntaxError", "TemplateAssertionError")}
     if bad:
         raise core.MachineryError(f"generator produced templates Jinja rejects: {bad}")
-    for idx, stuck in su.validate(ck, PID, traces, "traces", batch=8000, parallel=1 if ck.tier == "quick" else 6):
+    rejected = su.validate(ck, PID, traces, "traces", batch=8000, parallel=1 if ck.tier == "quick" else 6)
+    if not rejected:
+        # vacuity of the two families below can only be judged on a tree that behaves (an engine that stops
+        # asking the gate produces no refusals either -- and rejected traces)
+        if any(not stats["refused_after_grant"].get(th) for th in ("fresh", "receiver", "remark", "mixed")):
+            raise core.MachineryError(f"vacuous sessions: no refusal after a grant: {stats['refused_after_grant']}")
+        if any(not stats["named_variables"].get(v) for v in ENGINE_NAMES):
+            raise core.MachineryError(f"vacuous name sweep: {stats['named_variables']}")
+    for idx, stuck in rejected:
         case = cases[idx]
         t, src, text = results[idx]
         ev = t["ev"][stuck - 1] if stuck else {"e": "?"}
@@ -794,13 +811,22 @@ def run(ck):
                    "events": [(e["e"], e["v"], e["ok"], e["s"]) for e in traces[i]["ev"]]})
     bg.join()
     ck.exhaustive = False
-    ck.extra["exhaustive_note"] = ("thorough: every callable x call site x alias sequence of length <= 2 x sync/async x "
+    ck.extra["exhaustive_note"] = ("thorough: every callable x call site x alias sequence of length <= 1 (and the pairs of "
+                                   "the first seven steps, the later steps paired once per position) x sync/async x "
                                    "policy (basic callables: every source for length <= 1, one sampled source for length 2; "
-                                   "wrapped / decorated callables: length <= 1, two sampled sources); quick: a "
-                                   "seeded sample of sources / aliases per callable x site")
+                                   "wrapped / decorated callables: length <= 1, two sampled sources); every engine name x "
+                                   "binding construct x call site for three sampled callables; seeded sessions (400 per "
+                                   "theme); quick: a seeded sample of sources / aliases per callable x site, one site per "
+                                   "engine name x binding construct, 30 sessions per theme")
+    ck.extra["engine_names"] = ENGINE_NAMES
+    ck.extra["session_themes"] = ["fresh", "receiver", "remark", "mixed"]
     ck.extra["excluded_shapes"] = [
         "callables invoked by Python code the application supplies (custom filters / tests calling their arguments)",
         "callables reached only through private or internal attributes (C17)",
+        "`caller` as a macro / call-block parameter without default, `loop` as the target of a for loop or of a "
+        "{% set %} inside one (compile-time errors), an application context variable named `self`",
+        "a variable named caller / varargs / kwargs read inside the helper macro of the call-block-parameter step "
+        "(there the names are the helper's own implicit arguments)",
     ]
     ck.assumptions += [
         "recording callables log `ran` as the first thing their body does",
